@@ -636,6 +636,23 @@ def run_library(dialect, defs_dir, stream, strict=False, regs=None, snap_eid=Non
     return lib, subs
 
 
+class _Sink:
+    """a subscriber object that only the subscription itself refers to"""
+    def __init__(self, f): self.f = f
+    def call(self, *a, **kw): return self.f(*a, **kw)
+    def __call__(self, *a, **kw): return self.f(*a, **kw)
+
+
+def callable_variant(cb, n):
+    """the kinds of callable a user may register: plain function, bound method of a throwaway object, partial, callable object"""
+    import functools
+    k = (n + 1) % 4
+    if k == 0: return cb
+    if k == 1: return _Sink(cb).call
+    if k == 2: return functools.partial(cb)
+    return _Sink(cb)
+
+
 class RegRecorder(recordings.Recorder):
     """like Recorder but registers exactly the given subscriptions, in order, several per key if asked (C07)"""
     def __init__(self, pl, regs):
@@ -660,18 +677,19 @@ class RegRecorder(recordings.Recorder):
                         ','.join(impl.canon_t(v, t.type) for v, t in zip(a, pos)),
                         ','.join(sorted('%s=%s' % (k, impl.canon_t(kw[k], named[k].type)) for k in kw))))
                 return cb
-            Entity.subscribe_method_call(en, mn, mk(en, m, n))
+            Entity.subscribe_method_call(en, mn, callable_variant(mk(en, m, n), n))
         for n, (en, pn) in enumerate(self.pkeys):
             p = find_prop(en, pn)
             def mkp(en, p):
                 def cb(entity, value): trace.append('CP %s_%s %d %s' % (en, p.get_name(), entity.id, impl.canon_t(value, p._type)))
                 return cb
-            Entity.subscribe_property_change(en, pn, mkp(en, p))
+            Entity.subscribe_property_change(en, pn, callable_variant(mkp(en, p), n))
         for n, (en, path) in enumerate(self.nkeys):
             def mkn(key):
                 def cb(entity, obj): trace.append('CN %s %d %s' % (key, entity.id, impl.canon(obj)))
                 return cb
-            Entity.subscribe_nested_property_change(en, path, mkn(en + '_' + path))
+            Entity.subscribe_nested_property_change(en, path, callable_variant(mkn(en + '_' + path), n))
+        import gc; gc.collect()
         self.cur = [None]
         self.orig_call = Entity.call_client_method; self.orig_set = Entity.set_client_property
         self.install_pp()
@@ -694,7 +712,8 @@ def split(lines):
 # ------------------------------------------------------------------ targeted nested-property sweeps (C06)
 def sweep_defset(elem=('u', 2), nfields=5):
     """one entity type whose client properties are a list, a dict of lists and a list of dicts"""
-    fields = tuple(('f%d' % i, ('array', elem, None) if i % 2 == 0 else ('u', 1)) for i in range(nfields))
+    # (f2 is a FIXED-SIZE array of 4: element updates need 2 index bits, slice bounds 3 - on the same list object, in both orders)
+    fields = tuple(('f%d' % i, ('array', elem, 4 if i == 2 else None) if i % 2 == 0 else ('u', 1)) for i in range(nfields))
     sec = {'implements': [], 'volatile': ['position', 'yaw', 'pitch', 'roll'], 'client_methods': [], 'cell_methods': [], 'base_methods': [],
            'props': [('lst', ('array', elem, None), 'ALL_CLIENTS'), ('dct', ('dict', fields, False), 'ALL_CLIENTS'),
                      ('lod', ('array', ('dict', (('a', elem), ('b', ('array', ('u', 1), None))), False), None), 'OWN_CLIENT'),
@@ -767,11 +786,19 @@ class SweepHistory(History):
                 nested(root + [(0, 1), (i, ws), (j, ws)], b''.join(gen_types.wire_of(et, x) for x in new), True, 'nested-slice-big'); lst[i:j] = new
         # depth 2 and 3
         di = names.index('dct'); dt = props[di][1]
-        dv = {nm: ([self.val(ft[1]) for _ in range(3)] if ft[0] == 'array' else self.val(ft)) for nm, ft in dt[1]}
+        dv = {nm: ([self.val(ft[1]) for _ in range(ft[2] or 3)] if ft[0] == 'array' else self.val(ft)) for nm, ft in dt[1]}
         setprop('dct', dv)
         for fi, (nm, ft) in enumerate(dt[1]):
             fw = bits_required(len(dt[1]))
-            if ft[0] == 'array':
+            if ft[0] == 'array' and ft[2]:
+                # fixed-size array: element update, equal-length slice replacement, element update, slice again (the length never changes)
+                n = ft[2]; pre_f = [(1, 1), (di, bits_required(len(props))), (1, 1), (fi, fw), (0, 1)]
+                for step in range(2):
+                    i = (n - 1) if step == 0 else 0; nv = self.val(ft[1])
+                    nested(pre_f + [(i, bits_required(n))], gen_types.wire_of(ft[1], nv), False, 'nested-set-fixed'); dv[nm][i] = nv
+                    ws = bits_required(n + 1); new = [self.val(ft[1]) for _ in range(2)]
+                    nested(pre_f + [(1, ws), (3, ws)], b''.join(gen_types.wire_of(ft[1], x) for x in new), True, 'nested-slice-fixed'); dv[nm][1:3] = new
+            elif ft[0] == 'array':
                 for i in range(3):
                     nv = self.val(ft[1])
                     nested([(1, 1), (di, bits_required(len(props))), (1, 1), (fi, fw), (0, 1), (i, bits_required(len(dv[nm])))],
@@ -780,6 +807,27 @@ class SweepHistory(History):
             else:
                 nv = self.val(ft)
                 nested([(1, 1), (di, bits_required(len(props))), (0, 1), (fi, fw)], gen_types.wire_of(ft, nv), False, 'nested-set'); dv[nm] = nv
+        # LONG lists below a dict field and below a list of dicts: the wide (8/9-bit) index and slice fields then start at other bit offsets
+        # than at depth 1 (after 4, 8 and 9+ header bits) - a reader that mis-handles a field beginning or ending on a byte boundary shows here
+        fi0, (nm0, ft0) = next((i, f) for i, f in enumerate(dt[1]) if f[1][0] == 'array')
+        fw = bits_required(len(dt[1])); pre = [(1, 1), (di, bits_required(len(props))), (1, 1), (fi0, fw), (0, 1)]
+        for L in (129, 200, 254):        # (a property value arrives with at most 254 elements: known finding C03-c)
+            self.flush_snaps(); dv[nm0] = [self.val(ft0[1]) for _ in range(L)]
+            setprop('dct', dv)
+            for i in sorted(set([0, 127, 128, L // 2, L - 1])):
+                nv = self.val(ft0[1])
+                nested(pre + [(i, bits_required(L))], gen_types.wire_of(ft0[1], nv), False, 'nested-set-long-d2'); dv[nm0][i] = nv
+            for (i, j, k) in ((128, 130, 1), (L, L, 2), (0, 1, 0)):
+                n = len(dv[nm0]); ws = bits_required(n + 1); new = [self.val(ft0[1]) for _ in range(k)]
+                nested(pre + [(i, ws), (j, ws)], b''.join(gen_types.wire_of(ft0[1], x) for x in new), True, 'nested-slice-long-d2'); dv[nm0][i:j] = new
+        if ft0[1] in (('u', 1), ('u', 2)):
+            for _ in range(2):               # grown past 256 by slice packets: 9-bit fields after 8 header bits
+                n = len(dv[nm0]); ws = bits_required(n + 1); new = [self.val(ft0[1]) for _ in range(40)]
+                nested(pre + [(n, ws), (n, ws)], b''.join(gen_types.wire_of(ft0[1], x) for x in new), True, 'nested-slice-grow-d2'); dv[nm0][n:n] = new
+            for i in (0, 255, 256, 300, len(dv[nm0]) - 1):
+                nv = self.val(ft0[1])
+                nested(pre + [(i, bits_required(len(dv[nm0])))], gen_types.wire_of(ft0[1], nv), False, 'nested-set-big-d2'); dv[nm0][i] = nv
+        self.flush_snaps(); dv[nm0] = [self.val(ft0[1]) for _ in range(3)]; setprop('dct', dv)
         oi = names.index('lod'); ot = props[oi][1]; odt = ot[1]
         ov = [{'a': self.val(odt[1][0][1]), 'b': [1, 2, 3]} for _ in range(3)]
         setprop('lod', ov)
